@@ -50,6 +50,16 @@
 #undef protected
 
 static std::string hx(double d) { return "\"" + hexd(d) + "\""; }
+// FNV-1a over the bytes of a vector of doubles (identity of a solver vector)
+static std::string vhash(const std::vector<double> &v, size_t n) {
+  uint64_t h = 1469598103934665603ull;
+  for (size_t i = 0; i < n && i < v.size(); i++) {
+    unsigned char b[8]; memcpy(b, &v[i], 8);
+    for (int k = 0; k < 8; k++) { h ^= b[k]; h *= 1099511628211ull; }
+  }
+  char buf[32]; snprintf(buf, sizeof buf, "\"%016llx\"", (unsigned long long)h);
+  return buf;
+}
 
 class Spy : public IPhreeqc {
 public:
@@ -152,7 +162,7 @@ public:
     for (size_t i = 0; i < p->col_redox; i++) o << (i ? "," : "") << hx(p->min_delta[i]);
     o << "],\"max\":[";
     for (size_t i = 0; i < p->col_redox; i++) o << (i ? "," : "") << hx(p->max_delta[i]);
-    o << "],\"error\":" << hx(p->error) << ",\"scaled_error\":" << hx(p->scaled_error) << ",\"max_pct\":" << hx(p->max_pct)
+    o << "],\"xhash\":" << vhash(p->inv_delta1, p->count_unknowns) << ",\"error\":" << hx(p->error) << ",\"scaled_error\":" << hx(p->scaled_error) << ",\"max_pct\":" << hx(p->max_pct)
       << ",\"count_calls\":" << p->count_calls;
     o << ",\"good\":[";
     for (int i = 0; i < p->count_good; i++) o << (i ? "," : "") << p->good[i];
@@ -190,7 +200,7 @@ public:
         unsigned long sup = 0;
         for (size_t i = 0; i < ns; i++) if (p->equal(p->inv_delta1[i], 0.0, TOL) == FALSE) sup |= 1ul << (i + nph);
         for (size_t i = 0; i < nph; i++) if (p->equal(p->inv_delta1[i + ns], 0.0, TOL) == FALSE) sup |= 1ul << i;
-        oracle << (first ? "" : ",") << "[" << mask << "," << (rc == OK ? 1 : 0) << "," << sup;
+        oracle << (first ? "" : ",") << "[" << mask << "," << (rc == OK ? 1 : 0) << "," << sup << "," << vhash(p->inv_delta1, n);
         if (want_x) { oracle << ",["; for (size_t i = 0; i < n; i++) oracle << (i ? "," : "") << hx(p->inv_delta1[i]); oracle << "]"; }
         oracle << "]";
         first = false;
@@ -199,7 +209,10 @@ public:
     p->count_calls = calls;
   }
   virtual void punch_msg(const char *str) {
-    if (!oracle_done && want_oracle && str && this->PhreeqcPtr->state == INVERSE && strstr(str, "Sum_resid")) tabulate();
+    if (str && this->PhreeqcPtr->state == INVERSE && strstr(str, "Sum_resid")) {
+      if (!problem_done) { class inverse *inv = current(); if (inv) { dump_problem(inv); problem_done = true; } }
+      if (!oracle_done && want_oracle) tabulate();
+    }
     IPhreeqc::punch_msg(str);
   }
   bool want_oracle, want_x;
